@@ -321,8 +321,57 @@ func visitInline(fw *formatWriter, source []byte, cursor *commonmark.Cursor) boo
 		if !child.Span().IsValid() {
 			return false
 		}
-		fw.b(spanSlice(source, child.Span()))
+		copyInline(fw, source, child)
 		return false
+	}
+}
+
+// copyInline writes an inline node as it is spelled in the source.
+// A node that spans lines inside a container or on indented lines
+// has the container's markers and the indentation of its later lines
+// between its children in the source;
+// those are left out, because the writer puts the current prefix in front of every line.
+func copyInline(fw *formatWriter, source []byte, inline *commonmark.Inline) {
+	span := inline.Span()
+	if inline.ChildCount() == 0 {
+		fw.b(spanSlice(source, span))
+		return
+	}
+	pos := span.Start
+	for i, n := 0, inline.ChildCount(); i < n; i++ {
+		child := inline.Child(i)
+		if !child.Span().IsValid() || child.Span().Start < pos {
+			continue
+		}
+		copyInlineSyntax(fw, source, pos, child.Span().Start)
+		copyInline(fw, source, child)
+		pos = child.Span().End
+	}
+	if pos < span.End {
+		copyInlineSyntax(fw, source, pos, span.End)
+	}
+}
+
+// copyInlineSyntax writes the bytes between two children of an inline node
+// (delimiters, brackets, white space) without what follows a line ending
+// up to the content of the next line.
+func copyInlineSyntax(fw *formatWriter, source []byte, start, end int) {
+	gap := source[start:end]
+	if start > 0 && (source[start-1] == '\n' || source[start-1] == '\r') {
+		// The child before these bytes ended its line.
+		gap = bytes.TrimLeft(gap, " \t>")
+	}
+	for len(gap) > 0 {
+		i := bytes.IndexAny(gap, "\r\n")
+		if i < 0 {
+			fw.b(gap)
+			return
+		}
+		if gap[i] == '\r' && i+1 < len(gap) && gap[i+1] == '\n' {
+			i++
+		}
+		fw.b(gap[:i+1])
+		gap = bytes.TrimLeft(gap[i+1:], " \t>")
 	}
 }
 
